@@ -167,7 +167,7 @@ def evaluate(pid, res, known, ledger, repo_root, tier):
                 continue
             if o['result'] == 'failed':
                 failed.append((r, o, key))
-            elif changed and base is not None and o['name'] in base.get('proved', []):
+            elif changed and base is not None and (o['name'] in base.get('proved', []) or base.get('complete')):
                 # discharged on the unchanged tree, source of the function changed, no longer discharged
                 failed.append((r, o, key))
             else:
@@ -293,7 +293,9 @@ def do_ledger(repo_root, jobs):
         for u in sel:
             r = by_label[R.unit_label(u)]
             keys = []
-            ent[r['label']] = {'hash': r.get('fn_hash'), 'proved': keys}
+            real = [o for o in r['obligations'] if o['kind'] != 'canary']
+            ent[r['label']] = {'hash': r.get('fn_hash'), 'proved': keys,
+                               'complete': r['status'] == 'ok' and bool(real) and all(o['result'] == 'proved' for o in real)}
             for o in r['obligations']:
                 # only obligations named from the sidecar text (stable under renaming of locals in the code)
                 if o['kind'] in ('ensures', 'invariant', 'raises-iff', 'hint', 'variant', 'frame') and o['result'] == 'proved' \
